@@ -71,10 +71,18 @@ def custom_vocab(rng, unknown_ok=None, n_macros=12, n_envs=5, full_cover_index=N
     macros['\\'] = D.M(['*', '[nospace'])
     macros['&'] = D.M('')
     macros['%'] = D.M('')
+    # text-like / math-like macros declared the pylatexenc-2 way (MacroStandardArgsParser(args_math_mode=[..]))
+    macros['ltxt'] = D.M('{', ['text'], legacy=True)
+    # (a legacy args_math_mode=True argument inside a formula keeps the formula's recorded delimiter, the pylatexenc-3
+    # delta resets it: both satisfy the statement, so no legacy math-mode macro is generated)
+    macros['lmix'] = D.M('{{', [None, 'text'], legacy=True)
     macros['aft'] = D.M('')     # carries a state change that lasts after the call (make_after_parsing_state_delta)
     macros['$'] = D.M('')       # escaped dollar: a macro token whose name is a math delimiter character
     macros['#'] = D.M('')
     specials = ['~', '--', '---', '&']
+    # declaration order of the specials (a longer sequence may be declared before or after its prefix)
+    spec_order = list(specials)
+    rng.shuffle(spec_order)
     par = rng.random() < 0.8
 
     def make_ctx(macros=macros, envs=envs, specials=specials, unknown_ok=unknown_ok, par=par):
@@ -107,7 +115,12 @@ def custom_vocab(rng, unknown_ok=None, n_macros=12, n_envs=5, full_cover_index=N
             # a (value-preserving) change of the parsing state that outlives the call, as \\makeatletter-like macros make
             from pylatexenc.latexnodes import ParsingStateDelta
             return ParsingStateDelta(set_attributes=dict(enable_specials=True))
-        ms = [MacroSpec(n, argspecs(d), **({'make_after_parsing_state_delta': after_delta} if n == 'aft' else {}))
+        def legacy_spec(n, d):
+            from pylatexenc.macrospec import MacroStandardArgsParser
+            amm = [{'text': False, 'math': True, None: None}[m] for m in d['mode']]
+            return MacroSpec(n, args_parser=MacroStandardArgsParser(''.join(d['sig']), args_math_mode=amm))
+        ms = [legacy_spec(n, d) if d.get('legacy') else
+              MacroSpec(n, argspecs(d), **({'make_after_parsing_state_delta': after_delta} if n == 'aft' else {}))
               for n, d in sorted(macros.items())]
         es = []
         for n, d in sorted(envs.items()):
@@ -119,7 +132,7 @@ def custom_vocab(rng, unknown_ok=None, n_macros=12, n_envs=5, full_cover_index=N
             es.append(EnvironmentSpec(n, argspecs(d), **kw))
         for n in VERB_ENVS:
             es.append(EnvironmentSpec(n, '', make_body_parser=_verb_body_parser(n)))
-        ss = [SpecialsSpec(c) for c in specials]
+        ss = [SpecialsSpec(c) for c in spec_order if c in specials] + [SpecialsSpec(c) for c in specials if c not in spec_order]
         if par:
             ss.append(SpecialsSpec('\n\n'))
         db.add_context_category('custom', macros=ms, environments=es, specials=ss)
